@@ -20,6 +20,13 @@ def render(d, h):
     for want in ("bs", "bsp", "src", "readBuf", "readErr", "readEOF", "litBs", "offs"):
         if want not in acc:
             problems.append("C07: no access facts for Parser.%s (field renamed or removed?)" % want)
+    cnt = d.get("syntax", {}).get("byte_access_counts") or {}
+    lines.append("")
+    lines.append("/-- how often Parser.next (the only function that is not wholly a modelled primitive) mentions p.bs / p.bsp -/")
+    lines.append("def nextMentions : List (String × Nat) := " + h.llist(
+        "(%s, %d)" % (h.lstr(f), int((cnt.get(f) or {}).get("next", 0))) for f in ("bs", "bsp")))
+    if not cnt:
+        problems.append("C07: extractor produced no syntax.byte_access_counts facts")
     lines.append("\nend ShVerif.Gen.C07")
     h.put("C07", "\n".join(lines) + "\n")
     return problems
